@@ -576,7 +576,18 @@ class Enc:
         if L.okeys is not None or R.okeys is not None:
             self.requirements.append(('mergejoin left input sorted by ' + show(p[3]), self.is_sorted(L, lk, outer)))
             self.requirements.append(('mergejoin right input sorted by ' + show(p[4]), self.is_sorted(R, rk, outer)))
-            return self._hashjoin_on(jt, 'true', lk, rk, L, R, outer, merge=True)
+            out = self._hashjoin_on(jt, 'true', lk, rk, L, R, outer, merge=True)
+            # rows leave a merge join in merge-key order: the left key for pairs and unmatched left rows, the right key
+            # for unmatched right rows (slot layout of _join: pairs, then left padding, then right padding)
+            kl = [[(self.expr(k, L, row, outer), False) for k in lk] for _, row in L.rows]
+            kr = [[(self.expr(k, R, row, outer), False) for k in rk] for _, row in R.rows]
+            ok = [kl[i] for i in range(len(L.rows)) for j in range(len(R.rows))]
+            if jt in ('left_outer', 'full_outer'):
+                ok += kl
+            if jt in ('right_outer', 'full_outer'):
+                ok += kr
+            out.okeys = ok
+            return out
         n, m = len(L.rows), len(R.rows)
         kl = [[self.expr(k, L, row, outer) for k in lk] for _, row in L.rows]
         kr = [[self.expr(k, R, row, outer) for k in rk] for _, row in R.rows]
@@ -636,19 +647,27 @@ class Enc:
         def in_run(x, a_members, cnt, j):
             return Or([And(x == a, a_members(a, j)) for a in range(cnt)])
         out = []
+        steps = []     # emission step of each output slot: the logical output sequence of the simulated merge
         for i in range(n):
             for j in range(m):
-                hit = Or([And(match_t[t], in_run(Lc[t], memL, n, i), in_run(Rc[t], memR, m, j)) for t in range(T)])
-                out.append((hit, L.rows[i][1] + R.rows[j][1]))
+                hits = [And(match_t[t], in_run(Lc[t], memL, n, i), in_run(Rc[t], memR, m, j)) for t in range(T)]
+                out.append((Or(hits), L.rows[i][1] + R.rows[j][1]))
+                steps.append(Sum([If(h, t, 0) for t, h in enumerate(hits)]))
         nullL = [null(t) for t in (L.types or [None] * L.width())]
         nullR = [null(t) for t in (R.types or [None] * R.width())]
         if jt in ('left_outer', 'full_outer'):
             for i in range(n):
-                out.append((Or([And(advl_t[t], in_run(Lc[t], memL, n, i)) for t in range(T)]), L.rows[i][1] + nullR))
+                hits = [And(advl_t[t], in_run(Lc[t], memL, n, i)) for t in range(T)]
+                out.append((Or(hits), L.rows[i][1] + nullR))
+                steps.append(Sum([If(h, t, 0) for t, h in enumerate(hits)]))
         if jt in ('right_outer', 'full_outer'):
             for j in range(m):
-                out.append((Or([And(advr_t[t], in_run(Rc[t], memR, m, j)) for t in range(T)]), nullL + R.rows[j][1]))
-        return Rel(L.schema + R.schema, out, (L.types or [None] * L.width()) + (R.types or [None] * R.width()))
+                hits = [And(advr_t[t], in_run(Rc[t], memR, m, j)) for t in range(T)]
+                out.append((Or(hits), nullL + R.rows[j][1]))
+                steps.append(Sum([If(h, t, 0) for t, h in enumerate(hits)]))
+        res = Rel(L.schema + R.schema, out, (L.types or [None] * L.width()) + (R.types or [None] * R.width()))
+        res.okeys = [[(V('I', st, bv(False)), False)] for st in steps]
+        return res
 
     def p_apply(self, p, outer):
         jt = p[1]
@@ -873,6 +892,9 @@ class Enc:
         return self.limit(self.plan(p[3], outer), p[1], p[2], outer)
 
     def p_topn(self, p, outer):
+        if p[1] == 'null' and p[2] != '0' and self.contracts.get('topn_offset_without_limit_panics'):
+            # executor contract (probed): TopNExecutor reserves usize::MAX/2 + offset entries and panics (capacity overflow)
+            raise EnginePanics('top-N with OFFSET %s and no LIMIT: TopNExecutor panics (capacity overflow)' % show(p[2]))
         c = self.plan(p[4], outer)
         return self.limit(self.sort(c, lst(p[3]), outer), p[1], p[2], outer)
 
